@@ -82,7 +82,8 @@ def parse_output(res, out):
         act = hdr.split(" ")[0]
         res.cex.append((act, m.group(3).strip()))
     # coverage (-coverage 1): "<Name line 12, col 1 to line 14, col 20 of module M>: 12:34"
-    for m in re.finditer(r"^<(\w+) line \d+, col \d+ to line \d+, col \d+ of module (\w+)>: (\d+):(\d+)", out, re.M):
+    # (actions containing a LET are printed as `<Name line .. of module M (l c l c)>: n:m`)
+    for m in re.finditer(r"^<(\w+) line \d+, col \d+ to line \d+, col \d+ of module (\w+)(?: \([^)]*\))?>: (\d+):(\d+)", out, re.M):
         res.coverage[m.group(1)] = (int(m.group(3)), int(m.group(4)))
     return res
 
